@@ -55,33 +55,11 @@ impl<'a> BufferReader<'a> {
     }
 }
 
-// RFC 7541 §5.1 prefix integer at the head of `s` with an N-bit prefix (concrete definition and
-// that the real `decode_integer` computes it: Kani p_qpack_decode_integer_n*)
-enum PintRes {
-    Fin,
-    Overflow,
-    Val { flags: u8, value: usize, len: int },
-}
-uninterp spec fn pint_result(n: int, s: Seq<u8>) -> PintRes;
-
-// result of `decode_string` on the unread bytes `s` (RFC 7541 §5.2 string literal: length prefix
-// integer, optional Huffman coding, UTF-8)
-enum StrRes {
-    Fail { e: DecodingError },
-    Val { text: Seq<char>, len: int },
-}
-uninterp spec fn str_result(n: int, s: Seq<u8>) -> StrRes;
-
-// RFC 9204 Appendix A (the table itself: Kani p_qpack_static_table_is_rfc9204)
-uninterp spec fn static_name(i: int) -> Seq<char>;
-uninterp spec fn static_value(i: int) -> Seq<char>;
-
 spec fn is_suffix(s: Seq<u8>, of: Seq<u8>) -> bool {
     s.len() <= of.len() && s == of.skip(of.len() - s.len())
 }
 
-//@ extract wtransport-proto/src/qpack.rs >> enum DecodingError
-//@ end
+//@ include _qpack_spec.inc
 
 //@ extract wtransport-proto/src/qpack.rs >> enum FieldLineType
 //@ end
@@ -179,101 +157,6 @@ impl StaticTable {
 //@ | r matches Some(kv) ==> kv.0@ == static_name(index as int) && kv.1@ == static_value(index as int)
 //@ nocanary
 //@ end
-}
-
-// ---- reference interpreter of an encoded field section (RFC 9204 §4.5) -----------------------------
-// Field lines, one after the other, until the input is exhausted: indexed field line (static
-// only), literal with static name reference, literal with literal name; dynamic-table and
-// post-base forms are refused (the endpoint advertises a zero-capacity table); an index outside
-// the 99-entry static table is an error; later lines overwrite earlier ones with the same name.
-spec fn ref_lines(s: Seq<u8>, m: Map<Seq<char>, Seq<char>>) -> Result<Map<Seq<char>, Seq<char>>, DecodingError>
-    decreases s.len(),
-{
-    if s.len() == 0 {
-        Ok(m)
-    } else {
-        let b = s[0];
-        if b & 0x80 == 0x80 {
-            if b & 0x40 == 0 {
-                Err(DecodingError::DynamicNotSupported)
-            } else {
-                match pint_result(6, s) {
-                    PintRes::Fin => Err(DecodingError::UnexpectedFin),
-                    PintRes::Overflow => Err(DecodingError::IntegerOverflow),
-                    PintRes::Val { flags, value, len } => if value >= 99 {
-                        Err(DecodingError::IndexNotfound)
-                    } else if 1 <= len <= s.len() {
-                        ref_lines(s.skip(len), m.insert(static_name(value as int), static_value(value as int)))
-                    } else {
-                        Err(DecodingError::UnexpectedFin)
-                    },
-                }
-            }
-        } else if b & 0xc0 == 0x40 {
-            if b & 0x10 == 0 {
-                Err(DecodingError::DynamicNotSupported)
-            } else {
-                match pint_result(4, s) {
-                    PintRes::Fin => Err(DecodingError::UnexpectedFin),
-                    PintRes::Overflow => Err(DecodingError::IntegerOverflow),
-                    PintRes::Val { flags, value, len } => if value >= 99 {
-                        Err(DecodingError::IndexNotfound)
-                    } else if 1 <= len <= s.len() {
-                        match str_result(7, s.skip(len)) {
-                            StrRes::Fail { e } => Err(e),
-                            StrRes::Val { text, len: len2 } => if 1 <= len2 <= s.skip(len).len() {
-                                ref_lines(s.skip(len).skip(len2), m.insert(static_name(value as int), text))
-                            } else {
-                                Err(DecodingError::UnexpectedFin)
-                            },
-                        }
-                    } else {
-                        Err(DecodingError::UnexpectedFin)
-                    },
-                }
-            }
-        } else if b & 0xe0 == 0x20 {
-            match str_result(3, s) {
-                StrRes::Fail { e } => Err(e),
-                StrRes::Val { text: k, len } => if 1 <= len <= s.len() {
-                    match str_result(7, s.skip(len)) {
-                        StrRes::Fail { e } => Err(e),
-                        StrRes::Val { text: v, len: len2 } => if 1 <= len2 <= s.skip(len).len() {
-                            ref_lines(s.skip(len).skip(len2), m.insert(k, v))
-                        } else {
-                            Err(DecodingError::UnexpectedFin)
-                        },
-                    }
-                } else {
-                    Err(DecodingError::UnexpectedFin)
-                },
-            }
-        } else {
-            Err(DecodingError::DynamicNotSupported)
-        }
-    }
-}
-
-// the whole field section: Required Insert Count (8-bit prefix), Delta Base (7-bit prefix) - both
-// read and ignored - then the field lines
-spec fn ref_decode(s: Seq<u8>) -> Result<Map<Seq<char>, Seq<char>>, DecodingError> {
-    match pint_result(8, s) {
-        PintRes::Fin => Err(DecodingError::UnexpectedFin),
-        PintRes::Overflow => Err(DecodingError::IntegerOverflow),
-        PintRes::Val { flags, value, len } => if 1 <= len <= s.len() {
-            match pint_result(7, s.skip(len)) {
-                PintRes::Fin => Err(DecodingError::UnexpectedFin),
-                PintRes::Overflow => Err(DecodingError::IntegerOverflow),
-                PintRes::Val { flags: f2, value: v2, len: len2 } => if 1 <= len2 <= s.skip(len).len() {
-                    ref_lines(s.skip(len).skip(len2), Map::<Seq<char>, Seq<char>>::empty())
-                } else {
-                    Err(DecodingError::UnexpectedFin)
-                },
-            }
-        } else {
-            Err(DecodingError::UnexpectedFin)
-        },
-    }
 }
 
 struct Decoder;
